@@ -410,19 +410,19 @@ plan(Plan(
     lean={"HV.C12": ["C12_pjoin_assoc", "C12_copy_target_is_url_target", "C12_copy_target_is_url_target_nolib", "C12_local_url_shape"]},
     extra=_c12_extra, oracle="c12", design_ref="§7 C12", own=lambda name: True,
     claim="mixed: (proved, from the real AST) source_path_map's href is [prefix/]name[-version] for local sources, the URL for URL sources, '' otherwise, and its source is '' exactly "
-          "when there is nothing to copy; as_dict rewrites every script/stylesheet path to posixpath.join(href, quote(path)) on a deep copy [list lengths <= 2, contents symbolic]; "
+          "when there is nothing to copy; as_dict rewrites every script/stylesheet path to posixpath.join(href, quote(path)) on a deep copy [element-wise on symbolic item contents; every list length by the independent-iteration rule, G:HTMLDependency.as_dict:loop<k>.independent-iterations]; "
           "save_html copies exactly the dependencies render(lib_prefix=libdir, include_version) returned, each once, to the file's directory joined with libdir, with the same "
           "include_version, then writes the rendered html to `file` and returns `file` (ghost effect log); Tag/TagList.save_html forward to it; in copy_to no file-system "
           "change is reachable before the missing-file raise or the nothing-to-copy return, and the target directory is cleared before the first copy (effect-order analysis). "
           "(bounded) byte-identity of the copies, URL/target agreement on a real file system, all_files, stale directories, hostile file names",
     technique="symbolic harnesses with uninterpreted path functions and a ghost effect log, effect-order abstract interpretation of copy_to, path algebra in Lean; bounded file-system oracle",
-    level_note="level `other` (mixed): the file system itself (shutil / os / pathlib), percent-encoding and the list-length bound of the as_dict harness are outside the proof; "
+    level_note="level `other` (mixed): the file system itself (shutil / os / pathlib), percent-encoding and the key shape of the item dicts in the as_dict harness are outside the proof; "
                "the bounded oracle works on a temporary directory with names containing spaces, %, #, ?, non-ASCII and nested directories",
     assumptions=["posixpath.join is the prim pjoin (Lean definition cross-read against CPython); urllib.parse.quote, os.path.join, os.path.realpath, Path.resolve().parent and "
                  "package_dir are uninterpreted functions; unquote(quote(s)) == s and os.path.join == posixpath.join on POSIX are assumptions of the agreement theorem",
                  "dependency names and lib prefixes are not percent-encoded by the library: names containing '%', '#', '?' are outside the quantifier of the statement (file names are inside)",
                  "copy_to's loop over files and the shutil calls are analysed for ORDER of effects only; what they copy is the bounded oracle's subject"],
-    bounded=["B:C12:as_dict harness unrolls script/stylesheet lists of length 0, 1, 2 (contents symbolic)",
+    bounded=["B:C12:as_dict harness: item dicts with the path key and at most one further key (contents symbolic); the list length is unbounded by the independent-iteration rule (DESIGN 3.4)",
              "B:C12:save_html on a temporary directory: every local URL resolves to a byte-identical copy; all_files copies the directory; stale contents are gone; "
              "a missing listed file raises with the target directory untouched; URL-sourced and source-less dependencies copy nothing"],
 ))
